@@ -16,23 +16,35 @@ import (
 
 func init() { register("C05", c05r1, c05r2, c05r3, c05r4, c05r5, c05r6) }
 
-// c05Site is one place where a registered handler function is (or will be) invoked: a dynamic call
-// through registeredHandler.fn, or a call of a wrapper that invokes the fn of its handler parameter.
+// c05Direct is a dynamic call through registeredHandler.fn.
+type c05Direct struct {
+	fn   *ssa.Function
+	call ssa.CallInstruction
+}
+
+// c05Site is one place where a registered handler function is invoked, seen from a dispatching root
+// function: the frame (root function or a helper it calls, e.g. the wrapper run) and the call.
 type c05Site struct {
-	fn      *ssa.Function
-	call    ssa.CallInstruction
-	cell    ssa.Value // the handler variable (struct cell) whose fn is invoked
-	connArg ssa.Value // the *Conn handed to the handler
-	via     string    // "" or the wrapper's name
+	fr   *c05Frame
+	call *ssa.Call
+}
+
+// c05Root is a dispatching function: it (or a helper below it) compares the command integer read
+// first with DC_AUTHENTICATE, and handler invocations are reachable below it.
+type c05Root struct {
+	fr    *c05Frame
+	first c05V // the command value compared with DC_AUTHENTICATE
+	sites []c05Site
 }
 
 type c05Model struct {
 	fnField, rawField *types.Var
 	lookup, satisfies *ssa.Function
-	direct            []c05Site // dynamic calls through .fn
-	sites             []c05Site // sites in dispatching functions (wrappers expanded to their callers)
-	wrappers          []*ssa.Function
+	dca               int64
+	direct            []c05Direct
+	roots             []*c05Root
 	problems          []string
+	unrooted          []c05Direct
 }
 
 var c05models = map[*Prog]*c05Model{}
@@ -49,31 +61,77 @@ func (c *Ctx) c05build(rule string) *c05Model {
 	return m
 }
 
+// dispatchOf looks for the DC_AUTHENTICATE comparison in the frames below fr. ok when there is at
+// least one and all of them compare the same value.
+func (m *c05Model) dispatchOf(fr *c05Frame) (first c05V, ok bool, why string) {
+	n := 0
+	same := true
+	for _, f := range fr.all() {
+		allInstrs(f.fn, func(_ *ssa.BasicBlock, _ int, in ssa.Instruction) {
+			v, isV := in.(ssa.Value)
+			if !isV {
+				return
+			}
+			if o, is := m.dcaOperand(v); is {
+				r := f.res(o)
+				if n > 0 && r != first {
+					same = false
+				}
+				first = r
+				n++
+			}
+		})
+	}
+	if n == 0 {
+		return first, false, fmt.Sprintf("no test against DC_AUTHENTICATE found in %s or its helpers", fnName(fr.fn))
+	}
+	if !same {
+		return first, false, fmt.Sprintf("%d tests against DC_AUTHENTICATE on different values found below %s", n, fnName(fr.fn))
+	}
+	return first, true, ""
+}
+
+// dcaOperand: v is "X ==/!= DC_AUTHENTICATE" with X not a constant; returns X.
+func (m *c05Model) dcaOperand(v ssa.Value) (ssa.Value, bool) {
+	x, y, _, ok := c05eqTest(v)
+	if !ok {
+		return nil, false
+	}
+	if k, isC := constInt(x); isC && k == m.dca {
+		x, y = y, x
+	}
+	if k, isC := constInt(y); !isC || k != m.dca {
+		return nil, false
+	}
+	if _, isConst := x.(*ssa.Const); isConst {
+		return nil, false
+	}
+	return x, true
+}
+
+// authFact: the outcome "first command == DC_AUTHENTICATE" (want=true) or its negation.
+func (m *c05Model) authFact(r *c05Root, want bool) c05Fact {
+	return func(t c05Test) bool {
+		o, ok := m.dcaOperand(t.v.v)
+		if !ok || t.v.fr == nil || t.v.fr.res(o) != r.first {
+			return false
+		}
+		_, _, eq, _ := c05eqTest(t.v.v)
+		return (eq == t.truth) == want
+	}
+}
+
 func (c *Ctx) c05build1(rule string) *c05Model {
 	m := &c05Model{}
 	m.fnField = c.needField(rule, "server", "registeredHandler", "fn")
 	m.rawField = c.needField(rule, "server", "registeredHandler", "raw")
 	m.lookup = c.needFn(rule, "server", "(*Server).lookup")
 	m.satisfies = c.needFn(rule, "server", "(*Server).sessionSatisfies")
-	if m.fnField == nil || m.rawField == nil || m.lookup == nil || m.satisfies == nil {
+	dca, _ := c.needObj(rule, "commands", "DC_AUTHENTICATE").(*types.Const)
+	if m.fnField == nil || m.rawField == nil || m.lookup == nil || m.satisfies == nil || dca == nil {
 		return nil
 	}
-	connT := c.LookupObj("server", "Conn")
-	isConnPtr := func(t types.Type) bool {
-		p, ok := t.Underlying().(*types.Pointer)
-		if !ok || connT == nil {
-			return false
-		}
-		return types.Identical(p.Elem(), connT.Type())
-	}
-	pickConn := func(call ssa.CallInstruction) ssa.Value {
-		for _, a := range call.Common().Args {
-			if isConnPtr(a.Type()) {
-				return a
-			}
-		}
-		return nil
-	}
+	m.dca, _ = constInt(ssa.NewConst(dca.Val(), dca.Type()))
 	// every read of the fn field must be used only as the callee of a call
 	for _, fn := range c.ModFns {
 		allInstrs(fn, func(_ *ssa.BasicBlock, _ int, in ssa.Instruction) {
@@ -91,177 +149,227 @@ func (c *Ctx) c05build1(rule string) *c05Model {
 				}
 				call, isCall := r.(ssa.CallInstruction)
 				if isCall && call.Common().Value == v && !call.Common().IsInvoke() {
-					m.direct = append(m.direct, c05Site{fn: fn, call: call, cell: c05cellRoot(v), connArg: pickConn(call)})
+					m.direct = append(m.direct, c05Direct{fn: fn, call: call})
 					continue
 				}
 				m.problems = append(m.problems, fmt.Sprintf("%s: the handler function value is used other than as a callee (%s)", fnName(fn), c.Pos(r.Pos())))
 			}
 		})
 	}
-	// expand wrappers: a function that invokes the fn of its own handler parameter
-	var expand func(s c05Site, depth int)
-	expand = func(s c05Site, depth int) {
-		var param *ssa.Parameter
-		if cell, ok := s.cell.(*ssa.Alloc); ok {
-			if st := c05cellStores(cell); len(st) == 1 {
-				param, _ = st[0].Val.(*ssa.Parameter)
+	// dispatching roots: go up the static callers of the invoking function until a function with the
+	// DC_AUTHENTICATE dispatch is found
+	roots := map[*ssa.Function]*c05Root{}
+	var order []*ssa.Function
+	var up func(fn *ssa.Function, depth int, seen map[*ssa.Function]bool) bool
+	up = func(fn *ssa.Function, depth int, seen map[*ssa.Function]bool) bool {
+		if seen[fn] || depth > c05MaxDepth {
+			return false
+		}
+		seen[fn] = true
+		if _, ok := roots[fn]; ok {
+			return true
+		}
+		fr := c.c05rootFrame(fn, m.lookup, m.satisfies)
+		if first, ok, _ := m.dispatchOf(fr); ok {
+			roots[fn] = &c05Root{fr: fr, first: first}
+			order = append(order, fn)
+			return true
+		}
+		if fn.Parent() != nil {
+			return up(fn.Parent(), depth+1, seen)
+		}
+		if fn.Object() == nil {
+			return false
+		}
+		if uses := c.c05funcValueUses(fn); len(uses) > 0 {
+			m.problems = append(m.problems, fmt.Sprintf("%s invokes a handler and is used as a function value at %s: its callers cannot be enumerated", fnName(fn), c.Pos(uses[0].Pos())))
+		}
+		found := false
+		for _, cs := range c.callSites(fn.Object()) {
+			if up(cs.Fn, depth+1, seen) {
+				found = true
 			}
-		} else if p, ok := s.cell.(*ssa.Parameter); ok {
-			param = p
 		}
-		if param == nil {
-			m.sites = append(m.sites, s)
-			return
-		}
-		if depth > 3 {
-			m.problems = append(m.problems, "wrapper chain too deep at "+fnName(s.fn))
-			return
-		}
-		idx, cidx := -1, -1
-		for i, p := range s.fn.Params {
-			if p == param {
-				idx = i
-			}
-			if s.connArg != nil && p == s.connArg {
-				cidx = i
+		return found
+	}
+	for _, d := range m.direct {
+		up(d.fn, 0, map[*ssa.Function]bool{})
+	}
+	covered := map[ssa.CallInstruction]bool{}
+	for _, fn := range order {
+		r := roots[fn]
+		for _, f := range r.fr.all() {
+			for _, d := range m.direct {
+				if cl, ok := d.call.(*ssa.Call); ok && d.fn == f.fn {
+					r.sites = append(r.sites, c05Site{f, cl})
+					covered[d.call] = true
+				}
 			}
 		}
-		m.wrappers = append(m.wrappers, s.fn)
-		if uses := c.c05funcValueUses(s.fn); len(uses) > 0 {
-			m.problems = append(m.problems, fmt.Sprintf("%s invokes a handler and is used as a function value at %s: its callers cannot be enumerated", fnName(s.fn), c.Pos(uses[0].Pos())))
-		}
-		if s.fn.Object() == nil {
-			m.problems = append(m.problems, "anonymous function "+fnName(s.fn)+" invokes the handler of its parameter")
-			return
-		}
-		for _, cs := range c.callSites(s.fn.Object()) {
-			args := cs.Call.Common().Args
-			if idx >= len(args) {
-				continue
-			}
-			ns := c05Site{fn: cs.Fn, call: cs.Call, cell: c05cellRoot(args[idx]), via: fnName(s.fn)}
-			if cidx >= 0 && cidx < len(args) {
-				ns.connArg = args[cidx]
-			} else {
-				ns.connArg = pickConn(cs.Call)
-			}
-			expand(ns, depth+1)
+		if len(r.sites) > 0 {
+			m.roots = append(m.roots, r)
 		}
 	}
-	for _, s := range m.direct {
-		expand(s, 0)
+	for _, d := range m.direct {
+		if !covered[d.call] {
+			m.unrooted = append(m.unrooted, d)
+		}
 	}
 	return m
 }
 
-// c05dispatch gathers, for one dispatching function, the decision points the rules refer to.
-type c05Dispatch struct {
-	fn               *ssa.Function
-	first            ssa.Value // the command value compared with DC_AUTHENTICATE
-	authEdge, rawEdg Edge
-	ok               bool
-	why              string
-}
-
-func (c *Ctx) c05dispatchOf(rule string, fn *ssa.Function) c05Dispatch {
-	d := c05Dispatch{fn: fn}
-	dca := c.needObj(rule, "commands", "DC_AUTHENTICATE")
-	cst, _ := dca.(*types.Const)
-	if cst == nil {
-		d.why = "DC_AUTHENTICATE is not a constant"
-		return d
+// c05zeroValue: v is the zero value of its type (a nil-valued constant, or a load of a local variable
+// that is never written).
+func c05zeroValue(v ssa.Value) bool {
+	if k, ok := v.(*ssa.Const); ok {
+		return k.Value == nil
 	}
-	want, _ := constInt(ssa.NewConst(cst.Val(), cst.Type()))
-	n := 0
-	for _, b := range fn.Blocks {
-		a, eq, ne, ok := c05eqEdges(b)
-		if !ok {
-			continue
-		}
-		var other ssa.Value
-		if v, isC := constInt(a.Y); isC && v == want {
-			other = a.X
-		} else if v, isC := constInt(a.X); isC && v == want {
-			other = a.Y
-		} else {
-			continue
-		}
-		if _, isConst := other.(*ssa.Const); isConst {
-			continue
-		}
-		n++
-		d.first, d.authEdge, d.rawEdg = other, eq, ne
+	ld, ok := v.(*ssa.UnOp)
+	if !ok || ld.Op != token.MUL {
+		return false
 	}
-	if n != 1 {
-		d.why = fmt.Sprintf("%d tests against DC_AUTHENTICATE found in %s (expected exactly one)", n, fnName(fn))
-		return d
-	}
-	d.ok = true
-	return d
-}
-
-// rawEdges: edges on which <cell>.raw is true (on) / false (off).
-func (m *c05Model) rawEdges(fn *ssa.Function, cell ssa.Value) (on, off []Edge) {
-	for _, b := range fn.Blocks {
-		ifi := blockIf(b)
-		if ifi == nil {
-			continue
-		}
-		a := condAtom(ifi.Cond)
-		if a.Op != token.ILLEGAL {
-			continue
-		}
-		_, f, ok := fieldRead(stripConv(a.X))
-		if !ok || f != m.rawField || c05cellRoot(a.X) != cell {
-			continue
-		}
-		t, fl := Edge{b, 0}, Edge{b, 1}
-		if a.Neg {
-			t, fl = fl, t
-		}
-		on = append(on, t)
-		off = append(off, fl)
-	}
-	return
-}
-
-// lookupOf: the (*Server).lookup call whose first result is the only value stored in the handler cell.
-func (m *c05Model) lookupOf(cell ssa.Value) *ssa.Call {
-	ex, ok := cell.(*ssa.Extract) // handler used as a plain value (never field-addressed)
+	al, ok := ld.X.(*ssa.Alloc)
 	if !ok {
-		al, isAl := cell.(*ssa.Alloc)
-		if !isAl {
-			return nil
+		return false
+	}
+	for _, r := range *al.Referrers() {
+		switch r.(type) {
+		case *ssa.UnOp, *ssa.DebugRef:
+		default:
+			return false
 		}
-		st := c05cellStores(al)
-		if len(st) != 1 || c05cellEscapes(al) {
-			return nil
-		}
-		ex, ok = st[0].Val.(*ssa.Extract)
 	}
-	if !ok || ex.Index != 0 {
-		return nil
-	}
-	call, ok := ex.Tuple.(*ssa.Call)
-	if !ok || calleeFn(call) != m.lookup {
-		return nil
-	}
-	return call
+	return true
 }
 
-func c05siteLabel(s c05Site, class string, ord int) string {
-	l := fnName(s.fn) + "#handler-call[" + class + "]"
+// handlerLookup: v denotes a handler struct (or one of its fields) as seen from fr; returns the
+// (*Server).lookup call whose first result is the only non-zero value that variable can hold.
+func (m *c05Model) handlerLookup(fr *c05Frame, v ssa.Value) (c05Call, bool) {
+	var found c05Call
+	n := 0
+	bad := false
+	seen := map[c05V]bool{}
+	var walk func(f *c05Frame, v ssa.Value, d int)
+	walk = func(f *c05Frame, v ssa.Value, d int) {
+		if d > 12 || bad {
+			bad = true
+			return
+		}
+		root := c05cellRoot(v)
+		if h := f.home(root); h != nil {
+			f = h
+		}
+		if seen[c05V{root, f}] {
+			return
+		}
+		seen[c05V{root, f}] = true
+		if al, ok := root.(*ssa.Alloc); ok {
+			if _, isStruct := al.Type().Underlying().(*types.Pointer).Elem().Underlying().(*types.Struct); isStruct {
+				st := c05cellStores(al)
+				if c05cellEscapes(al) {
+					bad = true
+					return
+				}
+				if len(st) == 0 {
+					if !c05zeroValue(&ssa.UnOp{Op: token.MUL, X: al}) {
+						bad = true
+					}
+					return
+				}
+				for _, s := range st {
+					walk(f, s.Val, d+1)
+				}
+				return
+			}
+		}
+		for _, o := range f.origins(root) {
+			of := o.fr
+			if of == nil {
+				of = f
+			}
+			if c05zeroValue(o.v) {
+				continue
+			}
+			if ld, ok := o.v.(*ssa.UnOp); ok && ld.Op == token.MUL {
+				if _, isCell := c05cellOf(ld.X); isCell {
+					walk(of, o.v, d+1)
+					continue
+				}
+			}
+			call, idx := c05resultOf(o.v)
+			if call == nil || idx != 0 || calleeFn(call) != m.lookup {
+				bad = true
+				return
+			}
+			c := c05Call{of, call}
+			if n > 0 && c != found {
+				bad = true
+				return
+			}
+			found = c
+			n++
+		}
+	}
+	walk(fr, v, 0)
+	return found, n > 0 && !bad
+}
+
+func c05siteLabel(r *c05Root, class string, ord int) string {
+	l := fnName(r.fr.fn) + "#handler-call[" + class + "]"
 	if ord > 0 {
 		l += fmt.Sprintf("/%d", ord+1)
 	}
 	return l
 }
 
+// c05connArg: the *Conn argument of a handler invocation.
+func (c *Ctx) c05connArg(call *ssa.Call) ssa.Value {
+	connT := c.LookupObj("server", "Conn")
+	for _, a := range call.Call.Args {
+		if p, ok := a.Type().Underlying().(*types.Pointer); ok && connT != nil && types.Identical(p.Elem(), connT.Type()) {
+			return a
+		}
+	}
+	return nil
+}
+
+// c05fieldVals: the values stored into field f of the struct allocated by al, resolved in frame fr.
+func c05fieldVals(fr *c05Frame, al *ssa.Alloc, f *types.Var) []c05V {
+	var out []c05V
+	for _, v := range c05fieldStores(al, f) {
+		out = append(out, fr.res(v))
+	}
+	return out
+}
+
+// facts about one lookup call
+func (m *c05Model) lookupOK(lk c05Call) c05Fact {
+	return c05factBool(true, func(v c05V) bool {
+		ex, ok := v.v.(*ssa.Extract)
+		return ok && ex.Index == 1 && ex.Tuple == ssa.Value(lk.call) && v.fr == lk.fr
+	})
+}
+
+// rawIs: the outcome "<handler>.raw == want" for the handler produced by lookup call lk.
+func (m *c05Model) rawIs(lk c05Call, want bool) c05Fact {
+	return func(t c05Test) bool {
+		if t.truth != want || t.v.fr == nil {
+			return false
+		}
+		_, f, ok := fieldRead(stripConv(t.v.v))
+		if !ok || f != m.rawField {
+			return false
+		}
+		got, ok := m.handlerLookup(t.v.fr, t.v.v)
+		return ok && got == lk
+	}
+}
+
 // C05-R1: guard before every handler call.
 func c05r1(c *Ctx) {
 	defer c05timer("c05r1")()
 	const rule = "C05-R1"
-	c.Doc(rule, "every invocation of a registered handler (dynamic call through registeredHandler.fn, wrappers expanded to their callers) is dominated by: lookup ok, the h.raw test of the same handler variable with the polarity of its path (!raw after DC_AUTHENTICATE, raw otherwise), and on the authenticated path a nil-error ServerHandshakeWithMessage and a nil result of sessionSatisfies on the same command value that was looked up and stored in Conn.Command with the negotiation stored in Conn.Negotiation; the lookup/class/session checks lie on every cycle through the call (keep-alive loop)")
+	c.Doc(rule, "every invocation of a registered handler (dynamic call through registeredHandler.fn; the dispatching function is seen together with the same-package helpers it calls) is dominated by: lookup ok, the h.raw test of the same handler with the polarity of its path (!raw after DC_AUTHENTICATE, raw otherwise), and on the authenticated path a nil-error ServerHandshakeWithMessage and a nil result of sessionSatisfies on the same command value that was looked up and stored in Conn.Command with the negotiation stored in Conn.Negotiation; the lookup/class/session checks lie on every cycle through the call (keep-alive loop)")
 	m := c.c05build(rule)
 	if m == nil {
 		return
@@ -275,119 +383,123 @@ func c05r1(c *Ctx) {
 	if hs == nil || cmdF == nil || negF == nil {
 		return
 	}
-	c.MinCount(rule, "dynamic calls through registeredHandler.fn", len(m.direct), 2)
-	ords := map[string]int{}
+	c.MinCount(rule, "dynamic calls through registeredHandler.fn", len(m.direct), 1)
+	for i, d := range m.unrooted {
+		c.Undecided(rule, fmt.Sprintf("%s#handler-call[unclassified]/%d", fnName(d.fn), i+1), "handler invoked in a function that is not reachable from a function with a recognisable DC_AUTHENTICATE dispatch", d.call.Pos())
+	}
 	nAuth, nRaw := 0, 0
-	for _, s := range m.sites {
-		d := c.c05dispatchOf(rule, s.fn)
-		if !d.ok {
-			c.Undecided(rule, c05siteLabel(s, "unclassified", ords[fnName(s.fn)]), "handler invoked in a function without a recognisable DC_AUTHENTICATE dispatch: "+d.why, s.call.Pos())
-			ords[fnName(s.fn)]++
-			continue
-		}
-		isAuth, _ := c05passesOneOf(s.fn, []Edge{d.authEdge}, s.call)
-		isRaw, _ := c05passesOneOf(s.fn, []Edge{d.rawEdg}, s.call)
-		class := "unclassified"
-		switch {
-		case isAuth && !isRaw:
-			class = "auth"
-			nAuth++
-		case isRaw && !isAuth:
-			class = "raw"
-			nRaw++
-		}
-		key := fnName(s.fn) + "/" + class
-		lab := c05siteLabel(s, class, ords[key])
-		ords[key]++
-		if class == "unclassified" {
-			c.Violate(rule, lab, "handler invocation is reachable both with and without a leading DC_AUTHENTICATE: neither class check can hold", s.call.Pos())
-			continue
-		}
-		lk := m.lookupOf(s.cell)
-		if lk == nil {
-			c.Undecided(rule, lab+":lookup", "the invoked handler variable is not the (single) result of (*Server).lookup", s.call.Pos())
-			continue
-		}
-		cmdVal := lk.Call.Args[1]
-		okV := extractN(lk, 1)
-		var okTrue []Edge
-		if okV != nil {
-			okTrue, _ = boolEdges(s.fn, okV)
-		}
-		on, off := m.rawEdges(s.fn, s.cell)
-		polar, polName := off, "!raw"
-		if class == "raw" {
-			polar, polName = on, "raw"
-		}
-		if ok, p := c05passesOneOf(s.fn, okTrue, s.call); ok {
-			c.Ok(rule, lab+":lookup-ok", "dominated by the ok edge of lookup", s.call.Pos())
-		} else {
-			c.Violate(rule, lab+":lookup-ok", "handler invoked without passing the ok edge of the lookup that produced it", s.call.Pos(), c.describePath(p)...)
-		}
-		if ok, p := c05passesOneOf(s.fn, polar, s.call); ok {
-			c.Ok(rule, lab+":class", "dominated by the "+polName+" edge of the same handler variable", s.call.Pos())
-		} else {
-			c.Violate(rule, lab+":class", "handler invoked without passing the "+polName+" edge of the handler that is invoked (raw handlers must be unreachable on the authenticated path and vice versa)", s.call.Pos(), c.describePath(p)...)
-		}
-		// Conn.Command carries the command that was looked up
-		var connCell ssa.Value
-		if s.connArg != nil {
-			connCell = c05cellRoot(s.connArg)
-		}
-		if al, isAl := connCell.(*ssa.Alloc); !isAl || s.connArg != ssa.Value(al) {
-			c.Undecided(rule, lab+":conn", "the *Conn handed to the handler is not a fresh composite literal", s.call.Pos())
-			continue
-		}
-		cmdStores := c05fieldStores(connCell, cmdF)
-		c.Check(len(cmdStores) == 1 && cmdStores[0] == cmdVal, rule, lab+":conn-command", "Conn.Command is the command value that was looked up", "Conn.Command is not the command value passed to lookup", s.call.Pos())
-		if class == "raw" {
-			c.Check(cmdVal == d.first, rule, lab+":command", "the raw lookup uses the command integer that was read first", "the raw-path lookup does not use the command integer compared with DC_AUTHENTICATE", lk.Pos())
-			c.Check(len(c05fieldStores(connCell, negF)) == 0, rule, lab+":conn-negotiation", "raw handlers get no negotiation", "a raw-path Conn carries a Negotiation", s.call.Pos())
-			continue
-		}
-		// authenticated path: handshake, session check
-		negStores := c05fieldStores(connCell, negF)
-		if len(negStores) != 1 {
-			c.Violate(rule, lab+":conn-negotiation", "Conn.Negotiation is not set exactly once for an authenticated handler", s.call.Pos())
-			continue
-		}
-		negVal := negStores[0]
-		hcall, ridx := originCall(negVal)
-		if hc, isCall := hcall.(*ssa.Call); isCall && ridx == 0 && calleeFn(hc) == hs {
-			succ, _, _ := callErrEdges(s.fn, hc)
-			ok, p := c05passesOneOf(s.fn, succ, s.call)
-			c.Check(ok, rule, lab+":handshake-ok", "Conn.Negotiation is the result of ServerHandshakeWithMessage and its nil-error edge dominates the handler", "handler reachable without a successful ServerHandshakeWithMessage", s.call.Pos(), c.describePath(p)...)
-		} else {
-			c.Violate(rule, lab+":handshake-ok", "Conn.Negotiation is not the result of ServerHandshakeWithMessage in this function", s.call.Pos())
-		}
-		var pass []Edge
-		matched := 0
-		for _, sc := range callsIn(s.fn, m.satisfies.Object()) {
-			a := sc.Common().Args
-			if len(a) != 4 || a[1] != cmdVal || a[3] != negVal {
+	for _, r := range m.roots {
+		ords := map[string]int{}
+		for _, s := range r.sites {
+			tg := c05Tg{fr: s.fr, in: s.call}
+			dom := func(f c05Fact) (bool, []*ssa.BasicBlock) { return c05dominated(tg, c05newCuts(f)) }
+			isAuth, _ := dom(m.authFact(r, true))
+			isRaw, _ := dom(m.authFact(r, false))
+			class := "unclassified"
+			switch {
+			case isAuth && !isRaw:
+				class = "auth"
+				nAuth++
+			case isRaw && !isAuth:
+				class = "raw"
+				nRaw++
+			}
+			lab := c05siteLabel(r, class, ords[class])
+			ords[class]++
+			if class == "unclassified" {
+				c.Violate(rule, lab, "handler invocation is reachable both with and without a leading DC_AUTHENTICATE: neither class check can hold", s.call.Pos())
 				continue
 			}
-			matched++
-			succ, _, _ := callErrEdges(s.fn, sc.Value())
-			pass = append(pass, succ...)
-		}
-		if matched == 0 {
-			c.Violate(rule, lab+":session-check", "no sessionSatisfies call on the looked-up command value and the negotiation handed to the handler", s.call.Pos())
-			continue
-		}
-		if ok, p := c05passesOneOf(s.fn, pass, s.call); ok {
-			c.Ok(rule, lab+":session-check", "dominated by sessionSatisfies(cmd, …, neg) == nil on the same cmd and neg", s.call.Pos())
-		} else {
-			c.Violate(rule, lab+":session-check", "handler reachable without passing sessionSatisfies == nil for this command", s.call.Pos(), c.describePath(p)...)
-		}
-		// every cycle through the handler call passes the checks again (keep-alive loop)
-		for _, chk := range []struct {
-			name  string
-			edges []Edge
-		}{{"session-check", pass}, {"lookup-ok", okTrue}, {"class", polar}} {
-			cuts := newCuts().AddEdges(chk.edges...)
-			p := findPath(after(s.call), Target{Instr: s.call}, cuts)
-			c.Check(p == nil, rule, lab+":"+chk.name+"-per-dispatch", "the check lies on every cycle through the handler call", "a follow-on command reaches the handler again without passing the "+chk.name+" edge (check is outside the keep-alive loop)", s.call.Pos(), c.describePath(p)...)
+			lk, ok := m.handlerLookup(s.fr, s.call.Call.Value)
+			if !ok {
+				c.Undecided(rule, lab+":lookup", "the invoked handler variable is not the (single) result of (*Server).lookup", s.call.Pos())
+				continue
+			}
+			cmdVal := lk.fr.res(lk.call.Call.Args[1])
+			okFact := m.lookupOK(lk)
+			polar, polName := m.rawIs(lk, false), "!raw"
+			if class == "raw" {
+				polar, polName = m.rawIs(lk, true), "raw"
+			}
+			if ok, p := dom(okFact); ok {
+				c.Ok(rule, lab+":lookup-ok", "dominated by the ok edge of lookup", s.call.Pos())
+			} else {
+				c.Violate(rule, lab+":lookup-ok", "handler invoked without passing the ok edge of the lookup that produced it", s.call.Pos(), c.describePath(p)...)
+			}
+			if ok, p := dom(polar); ok {
+				c.Ok(rule, lab+":class", "dominated by the "+polName+" edge of the same handler variable", s.call.Pos())
+			} else {
+				c.Violate(rule, lab+":class", "handler invoked without passing the "+polName+" edge of the handler that is invoked (raw handlers must be unreachable on the authenticated path and vice versa)", s.call.Pos(), c.describePath(p)...)
+			}
+			// Conn.Command carries the command that was looked up
+			var conn c05V
+			if a := c.c05connArg(s.call); a != nil {
+				conn = s.fr.res(a)
+			}
+			connAl, isAl := conn.v.(*ssa.Alloc)
+			if !isAl || conn.fr == nil {
+				c.Undecided(rule, lab+":conn", "the *Conn handed to the handler is not a fresh composite literal", s.call.Pos())
+				continue
+			}
+			cmdStores := c05fieldVals(conn.fr, connAl, cmdF)
+			c.Check(len(cmdStores) == 1 && cmdStores[0] == cmdVal, rule, lab+":conn-command", "Conn.Command is the command value that was looked up", "Conn.Command is not the command value passed to lookup", s.call.Pos())
+			if class == "raw" {
+				c.Check(cmdVal == r.first, rule, lab+":command", "the raw lookup uses the command integer that was read first", "the raw-path lookup does not use the command integer compared with DC_AUTHENTICATE", lk.call.Pos())
+				c.Check(len(c05fieldStores(connAl, negF)) == 0, rule, lab+":conn-negotiation", "raw handlers get no negotiation", "a raw-path Conn carries a Negotiation", s.call.Pos())
+				continue
+			}
+			// authenticated path: handshake, session check
+			negStores := c05fieldVals(conn.fr, connAl, negF)
+			if len(negStores) != 1 {
+				c.Violate(rule, lab+":conn-negotiation", "Conn.Negotiation is not set exactly once for an authenticated handler", s.call.Pos())
+				continue
+			}
+			negVal := negStores[0]
+			hcalls := map[c05Call]bool{}
+			fromHS := negVal.fr != nil
+			if fromHS {
+				os := c05nonNilOrigins(negVal.fr, negVal.v)
+				for _, o := range os {
+					if hc, ridx := c05resultOf(o.v); hc != nil && ridx == 0 && o.fr != nil && calleeFn(hc) == hs {
+						hcalls[c05Call{o.fr, hc}] = true
+					} else {
+						fromHS = false
+					}
+				}
+				fromHS = fromHS && len(os) > 0
+			}
+			if fromHS {
+				ok, p := dom(c05factErrNil(func(x c05Call) bool { return hcalls[x] }))
+				c.Check(ok, rule, lab+":handshake-ok", "Conn.Negotiation is the result of ServerHandshakeWithMessage and its nil-error edge dominates the handler", "handler reachable without a successful ServerHandshakeWithMessage", s.call.Pos(), c.describePath(p)...)
+			} else {
+				c.Violate(rule, lab+":handshake-ok", "Conn.Negotiation is not the result of ServerHandshakeWithMessage in this function", s.call.Pos())
+			}
+			matched := map[c05Call]bool{}
+			for _, sc := range r.fr.calls(m.satisfies.Object()) {
+				a := sc.call.Call.Args
+				if len(a) != 4 || sc.fr.res(a[1]) != cmdVal || sc.fr.res(a[3]) != negVal {
+					continue
+				}
+				matched[sc] = true
+			}
+			if len(matched) == 0 {
+				c.Violate(rule, lab+":session-check", "no sessionSatisfies call on the looked-up command value and the negotiation handed to the handler", s.call.Pos())
+				continue
+			}
+			pass := c05factErrNil(func(x c05Call) bool { return matched[x] })
+			if ok, p := dom(pass); ok {
+				c.Ok(rule, lab+":session-check", "dominated by sessionSatisfies(cmd, …, neg) == nil on the same cmd and neg", s.call.Pos())
+			} else {
+				c.Violate(rule, lab+":session-check", "handler reachable without passing sessionSatisfies == nil for this command", s.call.Pos(), c.describePath(p)...)
+			}
+			// every cycle through the handler call passes the checks again (keep-alive loop)
+			for _, chk := range []struct {
+				name string
+				fact c05Fact
+			}{{"session-check", pass}, {"lookup-ok", okFact}, {"class", polar}} {
+				p := c05path(c05afterPt(s.fr, s.call), tg, c05newCuts(chk.fact))
+				c.Check(p == nil, rule, lab+":"+chk.name+"-per-dispatch", "the check lies on every cycle through the handler call", "a follow-on command reaches the handler again without passing the "+chk.name+" edge (check is outside the keep-alive loop)", s.call.Pos(), c.describePath(p)...)
+			}
 		}
 	}
 	c.MinCount(rule, "authenticated-path handler invocations", nAuth, 1)
@@ -398,23 +510,17 @@ func c05r1(c *Ctx) {
 func c05r2(c *Ctx) {
 	defer c05timer("c05r2")()
 	const rule = "C05-R2"
-	c.Doc(rule, "in the dispatching function, from every refusal edge (lookup !ok, wrong handler class, sessionSatisfies != nil, handshake error) every path to a return passes conn.Close() and no path reaches a handler invocation")
+	c.Doc(rule, "in the dispatching function (seen together with its same-package helpers), from every refusal outcome (lookup !ok, wrong handler class, sessionSatisfies != nil, handshake error, no SecurityConfig) every path to a return passes conn.Close() and no path reaches a handler invocation")
 	m := c.c05build(rule)
 	hs := c.needFn(rule, "security", "(*Authenticator).ServerHandshakeWithMessage")
-	if m == nil || hs == nil {
+	cfgF := c.needField(rule, "server", "Server", "SecurityConfig")
+	if m == nil || hs == nil || cfgF == nil {
 		return
 	}
-	fns := map[*ssa.Function]bool{}
-	for _, s := range m.sites {
-		fns[s.fn] = true
-	}
 	n := 0
-	for _, fn := range sortedFns(fns) {
-		d := c.c05dispatchOf(rule, fn)
-		if !d.ok {
-			c.Undecided(rule, fnName(fn)+"#dispatch", d.why, fn.Pos())
-			continue
-		}
+	kinds := map[string]int{}
+	for _, r := range m.roots {
+		fn := r.fr.fn
 		// the connection: the net.Conn parameter
 		var connP *ssa.Parameter
 		for _, p := range fn.Params {
@@ -426,94 +532,131 @@ func c05r2(c *Ctx) {
 			c.Undecided(rule, fnName(fn)+"#conn", "no net.Conn parameter", fn.Pos())
 			continue
 		}
-		var closes []ssa.Instruction
-		allInstrs(fn, func(_ *ssa.BasicBlock, _ int, in ssa.Instruction) {
-			if call, ok := in.(*ssa.Call); ok && call.Call.IsInvoke() && call.Call.Method.Name() == "Close" && c05resolve(call.Call.Value) == ssa.Value(connP) {
-				closes = append(closes, call)
-			}
-		})
-		type ref struct {
-			name string
-			e    Edge
-			pos  token.Pos
-		}
-		var refusals []ref
-		cnt := map[string]int{}
-		add := func(kind string, es []Edge, pos token.Pos) {
-			for _, e := range es {
-				cnt[kind]++
-				name := kind
-				if cnt[kind] > 1 {
-					name = fmt.Sprintf("%s/%d", kind, cnt[kind])
+		frames := r.fr.all()
+		closes := c05newCuts()
+		for _, f := range frames {
+			allInstrs(f.fn, func(_ *ssa.BasicBlock, _ int, in ssa.Instruction) {
+				if call, ok := in.(*ssa.Call); ok && call.Call.IsInvoke() && call.Call.Method.Name() == "Close" && f.res(call.Call.Value) == (c05V{connP, r.fr}) {
+					closes.addInstr(f, call)
 				}
-				refusals = append(refusals, ref{name, e, pos})
+			})
+		}
+		// which lookup calls lie on the authenticated path
+		lkClass := map[c05Call]string{}
+		for _, lk := range r.fr.calls(m.lookup.Object()) {
+			isAuth, _ := c05dominated(c05Tg{fr: lk.fr, in: lk.call}, c05newCuts(m.authFact(r, true)))
+			lkClass[lk] = "raw"
+			if isAuth {
+				lkClass[lk] = "auth"
 			}
 		}
-		for _, lc := range callsIn(fn, m.lookup.Object()) {
-			lk, _ := lc.(*ssa.Call)
-			if lk == nil {
-				continue
+		// kind of refusal an outcome is
+		kindOf := func(t c05Test) (string, token.Pos) {
+			if t.v.fr == nil {
+				return "", token.NoPos
 			}
-			isAuth, _ := c05passesOneOf(fn, []Edge{d.authEdge}, lk)
-			class := "raw"
-			if isAuth {
-				class = "auth"
+			rv := t.v.fr.res(t.v.v)
+			if ex, ok := rv.v.(*ssa.Extract); ok && ex.Index == 1 && !t.truth {
+				if cl, ok := ex.Tuple.(*ssa.Call); ok && calleeFn(cl) == m.lookup {
+					return "unknown-command[" + lkClass[c05Call{rv.fr, cl}] + "]", cl.Pos()
+				}
 			}
-			if okV := extractN(lk, 1); okV != nil {
-				_, f := boolEdges(fn, okV)
-				add("unknown-command["+class+"]", f, lk.Pos())
+			if _, f, ok := fieldRead(stripConv(t.v.v)); ok && f == m.rawField {
+				if lk, ok := m.handlerLookup(t.v.fr, t.v.v); ok {
+					if cls := lkClass[lk]; (cls == "auth") == t.truth {
+						return "wrong-class[" + cls + "]", lk.call.Pos()
+					}
+				}
 			}
-			// the handler cell this lookup fills
-			if ex := extractN(lk, 0); ex != nil {
-				for _, r := range *ex.Referrers() {
-					if st, ok := r.(*ssa.Store); ok {
-						on, off := m.rawEdges(fn, c05cellRoot(st.Addr))
-						if class == "auth" {
-							add("wrong-class[auth]", on, lk.Pos())
-						} else {
-							add("wrong-class[raw]", off, lk.Pos())
+			if t.hasNil && !t.isNil {
+				for _, x := range t.xs {
+					for _, cc := range c05carriedCalls(x) {
+						switch calleeFn(cc.call) {
+						case m.satisfies:
+							return "session-refused", cc.call.Pos()
+						case hs:
+							return "handshake-failed", cc.call.Pos()
 						}
 					}
 				}
 			}
+			if t.hasNil && t.isNil {
+				for _, x := range t.xs {
+					if _, f, ok := fieldRead(stripConv(x.v)); ok && f == cfgF {
+						return "no-security-config", fn.Pos()
+					}
+				}
+			}
+			return "", token.NoPos
 		}
-		for _, sc := range callsIn(fn, m.satisfies.Object()) {
-			_, fail, _ := callErrEdges(fn, sc.Value())
-			add("session-refused", fail, sc.Pos())
+		hasConfig := func(t c05Test) bool {
+			if !t.hasNil || t.isNil {
+				return false
+			}
+			_, f, ok := fieldRead(stripConv(t.x.v))
+			return ok && f == cfgF
 		}
-		for _, hc := range callsIn(fn, hs.Object()) {
-			_, fail, _ := callErrEdges(fn, hc.Value())
-			add("handshake-failed", fail, hc.Pos())
+		type ref struct {
+			name string
+			pt   c05Pt
+			pos  token.Pos
 		}
-		if cfgF := c.needField(rule, "server", "Server", "SecurityConfig"); cfgF != nil {
-			off, _ := fieldCondEdges(fn, cfgF)
-			add("no-security-config", off, fn.Pos())
+		var refusals []ref
+		cnt := map[string]int{}
+		for _, f := range frames {
+			for _, b := range f.fn.Blocks {
+				done := map[string]bool{}
+				for _, o := range c05staticTests(f, b) {
+					kind, pos := kindOf(o.t)
+					if kind == "" || done[fmt.Sprint(kind, o.succ)] {
+						continue
+					}
+					done[fmt.Sprint(kind, o.succ)] = true
+					if kind == "no-security-config" {
+						// a second nil test on a value every path already found non-nil is not a refusal
+						nb := b.Succs[o.succ]
+						if len(nb.Instrs) > 0 {
+							if inf, _ := c05dominated(c05Tg{fr: f, in: nb.Instrs[0], pred: b}, c05newCuts(hasConfig)); inf {
+								continue
+							}
+						}
+					}
+					cnt[kind]++
+					kinds[kind]++
+					name := kind
+					if cnt[kind] > 1 {
+						name = fmt.Sprintf("%s/%d", kind, cnt[kind])
+					}
+					refusals = append(refusals, ref{name, c05edgePt(f, b, o.succ), pos})
+				}
+			}
 		}
-		for _, r := range refusals {
+		for _, rf := range refusals {
 			n++
-			start := Point{r.e.To(), 0}
-			key := fnName(fn) + "#" + r.name
+			key := fnName(fn) + "#" + rf.name
 			var wit []*ssa.BasicBlock
 			for _, ret := range c05returns(fn) {
-				if p := findPath(start, Target{Instr: ret}, newCuts().AddInstrs(closes...)); p != nil {
+				cuts := &c05Cuts{edges: closes.edges, instrs: closes.instrs}
+				if p := c05path(rf.pt, c05Tg{fr: r.fr, in: ret}, cuts); p != nil {
 					wit = p
 					break
 				}
 			}
-			c.Check(wit == nil, rule, key+":closes", "every path from this refusal to a return passes conn.Close()", "a refusal returns without closing the connection", r.pos, c.describePath(wit)...)
+			c.Check(wit == nil, rule, key+":closes", "every path from this refusal to a return passes conn.Close()", "a refusal returns without closing the connection", rf.pos, c.describePath(wit)...)
 			wit = nil
-			for _, s := range m.sites {
-				if s.fn != fn {
-					continue
-				}
-				if p := findPath(start, Target{Instr: s.call}, nil); p != nil {
+			for _, s := range r.sites {
+				if p := c05path(rf.pt, c05Tg{fr: s.fr, in: s.call}, nil); p != nil {
 					wit = p
 				}
 			}
-			c.Check(wit == nil, rule, key+":no-handler", "no handler is reachable after this refusal", "a handler invocation is reachable after a refusal", r.pos, c.describePath(wit)...)
+			c.Check(wit == nil, rule, key+":no-handler", "no handler is reachable after this refusal", "a handler invocation is reachable after a refusal", rf.pos, c.describePath(wit)...)
 		}
 	}
-	c.MinCount(rule, "refusal edges", n, 7)
+	// every kind of refusal the property names must have been found at least once (not today's total)
+	for _, k := range []string{"unknown-command[auth]", "unknown-command[raw]", "wrong-class[auth]", "wrong-class[raw]", "session-refused", "handshake-failed", "no-security-config"} {
+		c.MinCount(rule, "refusal outcomes of kind "+k, kinds[k], 1)
+	}
+	c.MinCount(rule, "refusal edges", n, 1)
 }
 
 func sortedFns(m map[*ssa.Function]bool) []*ssa.Function {
@@ -525,120 +668,247 @@ func sortedFns(m map[*ssa.Function]bool) []*ssa.Function {
 	return out
 }
 
-// c05paramLoad: v is a load of field f of parameter p (p.f).
-func c05paramLoad(v ssa.Value, p *ssa.Parameter, f *types.Var) bool {
-	base, g, ok := fieldRead(stripConv(v))
-	return ok && g == f && f != nil && base == ssa.Value(p)
+// c05errTg: the target "this (possibly) successful return of the root, with its error result nil".
+func c05errTg(root *c05Frame, t RetPoint) c05Tg {
+	tg := c05Tg{fr: root, in: t.Ret, pred: t.Pred}
+	for i := len(t.Ret.Results) - 1; i >= 0; i-- {
+		if isErrorType(t.Ret.Results[i].Type()) {
+			tg.ifNil = t.Ret.Results[i]
+			break
+		}
+	}
+	return tg
+}
+
+// c05fieldOf: v, seen from fr, is a read of field f of a struct that resolves to base.
+func c05fieldOf(fr *c05Frame, v ssa.Value, base c05V, f *types.Var) bool {
+	if fr == nil || f == nil {
+		return false
+	}
+	b, g, ok := fieldRead(stripConv(c05resolve(v)))
+	if !ok || g != f {
+		r := fr.res(v)
+		if r.fr == nil {
+			return false
+		}
+		fr = r.fr
+		b, g, ok = fieldRead(stripConv(r.v))
+		if !ok || g != f {
+			return false
+		}
+	}
+	if h := fr.home(b); h != nil {
+		fr = h
+	}
+	return fr.res(b) == base
+}
+
+// c05dependsOn: does v (seen from fr) depend on a value satisfying pred? Like mustDepend (phis need
+// every incoming operand to depend) but a helper's parameter is followed to the caller's argument.
+func c05dependsOn(fr *c05Frame, v ssa.Value, pred func(c05V) bool) bool {
+	memo := map[c05V]int{}
+	var walk func(f *c05Frame, v ssa.Value, d int) bool
+	walk = func(f *c05Frame, v ssa.Value, d int) bool {
+		if v == nil || d > 60 {
+			return false
+		}
+		x := f.res(v)
+		if x.fr == nil {
+			return pred(x)
+		}
+		switch memo[x] {
+		case 1, 3:
+			return false
+		case 2:
+			return true
+		}
+		memo[x] = 1
+		res := false
+		if pred(x) {
+			res = true
+		} else if phi, ok := x.v.(*ssa.Phi); ok {
+			res = true
+			for _, e := range phi.Edges {
+				if !walk(x.fr, e, d+1) {
+					res = false
+					break
+				}
+			}
+		} else if call, idx := c05resultOf(x.v); call != nil && x.fr.kid(call) != nil {
+			// result of a followed helper: every non-nil value it returns must depend
+			k := x.fr.kid(call)
+			n := 0
+			res = true
+			for _, rv := range k.retVals(idx) {
+				if isNilConst(rv.val) {
+					continue
+				}
+				n++
+				if !walk(k, rv.val, d+1) {
+					res = false
+					break
+				}
+			}
+			res = res && n > 0
+		} else if in, ok := x.v.(ssa.Instruction); ok {
+			skip := false
+			if cl, isCall := x.v.(*ssa.Call); isCall {
+				if b, isB := cl.Call.Value.(*ssa.Builtin); isB && (b.Name() == "len" || b.Name() == "cap") {
+					skip = true
+				}
+			}
+			if !skip {
+				for _, op := range in.Operands(nil) {
+					if *op != nil && walk(x.fr, *op, d+1) {
+						res = true
+						break
+					}
+				}
+			}
+		}
+		if res {
+			memo[x] = 2
+		} else {
+			memo[x] = 3
+		}
+		return res
+	}
+	return walk(fr, v, 0)
+}
+
+// c05fieldCallee: call (in frame fr) is a dynamic call through function-typed field f of base.
+func c05fieldCallee(fr *c05Frame, call *ssa.Call, base c05V, f *types.Var) bool {
+	if call.Call.IsInvoke() || call.Call.StaticCallee() != nil {
+		return false
+	}
+	return c05fieldOf(fr, call.Call.Value, base, f)
+}
+
+// c05dynCalls lists the dynamic (non-static, non-invoke) calls in the frames below fr.
+func c05dynCalls(fr *c05Frame) []c05Call {
+	var out []c05Call
+	for _, f := range fr.all() {
+		allInstrs(f.fn, func(_ *ssa.BasicBlock, _ int, in ssa.Instruction) {
+			if call, ok := in.(*ssa.Call); ok && !call.Call.IsInvoke() && call.Call.StaticCallee() == nil {
+				if _, isB := call.Call.Value.(*ssa.Builtin); !isB {
+					out = append(out, c05Call{f, call})
+				}
+			}
+		})
+	}
+	return out
+}
+
+// c05callTrue: the outcome "result of one of the calls in set is true".
+func c05callTrue(set map[c05Call]bool) c05Fact {
+	return c05factBool(true, func(v c05V) bool {
+		call, idx := c05resultOf(v.v)
+		return call != nil && idx == 0 && set[c05Call{v.fr, call}]
+	})
 }
 
 // C05-R3: composition of the per-dispatch check.
 func c05r3(c *Ctx) {
 	defer c05timer("c05r3")()
 	const rule = "C05-R3"
-	c.Doc(rule, "sessionSatisfies succeeds only after commandLevelSatisfied(realCmd, neg.Authentication, neg.Encryption) is true and, when Authorizer != nil, authorized(realCmd, peerAddr, neg.User) is true; authorized returns true only after a true Authorizer call on a level from CommandPerms(realCmd); commandLevelSatisfied equals the table the property implies on all 256 rows per configuration shape (constant propagation over its SSA)")
+	c.Doc(rule, "sessionSatisfies (seen together with its same-package helpers, e.g. authorized) succeeds only after commandLevelSatisfied(realCmd, neg.Authentication, neg.Encryption) is true and, when Authorizer != nil, after a true answer of Authorizer(level, peerAddr, neg.User) on a level from CommandPerms(realCmd); when the helper authorized exists it returns true only after such an answer; commandLevelSatisfied equals the table the property implies on all 256 rows per configuration shape (constant propagation over its SSA)")
 	sat := c.needFn(rule, "server", "(*Server).sessionSatisfies")
 	cls := c.needFn(rule, "server", "(*Server).commandLevelSatisfied")
-	auz := c.needFn(rule, "server", "(*Server).authorized")
 	perms := c.needFn(rule, "server", "(*Server).CommandPerms")
 	fAuthz := c.needField(rule, "server", "Server", "Authorizer")
 	nAuth := c.needField(rule, "security", "SecurityNegotiation", "Authentication")
 	nEnc := c.needField(rule, "security", "SecurityNegotiation", "Encryption")
 	nUser := c.needField(rule, "security", "SecurityNegotiation", "User")
-	if sat == nil || cls == nil || auz == nil || perms == nil || fAuthz == nil || nAuth == nil || nEnc == nil || nUser == nil {
+	if sat == nil || cls == nil || perms == nil || fAuthz == nil || nAuth == nil || nEnc == nil || nUser == nil {
 		return
 	}
 	if len(sat.Params) != 4 {
 		c.Undecided(rule, fnName(sat)+"#signature", "unexpected parameter list", sat.Pos())
 		return
 	}
-	recv, cmdP, peerP, negP := sat.Params[0], sat.Params[1], sat.Params[2], sat.Params[3]
+	root := c.c05rootFrame(sat, cls, perms)
+	rv := func(p *ssa.Parameter) c05V { return c05V{p, root} }
+	recv, cmdP, peerP, negP := rv(sat.Params[0]), rv(sat.Params[1]), rv(sat.Params[2]), rv(sat.Params[3])
 	// (1) level check
-	var levelTrue []Edge
+	goodLevel := map[c05Call]bool{}
 	nl := 0
-	for _, cs := range callsIn(sat, cls.Object()) {
-		a := cs.Common().Args
-		good := len(a) == 4 && a[0] == ssa.Value(recv) && a[1] == ssa.Value(cmdP) && c05paramLoad(a[2], negP, nAuth) && c05paramLoad(a[3], negP, nEnc)
+	for _, cs := range root.calls(cls.Object()) {
+		a := cs.call.Call.Args
+		good := len(a) == 4 && cs.fr.res(a[0]) == recv && cs.fr.res(a[1]) == cmdP && c05fieldOf(cs.fr, a[2], negP, nAuth) && c05fieldOf(cs.fr, a[3], negP, nEnc)
 		nl++
-		c.Check(good, rule, fnName(sat)+"#commandLevelSatisfied-args", "called with (realCmd, neg.Authentication, neg.Encryption) of the session being checked", "commandLevelSatisfied is not called with realCmd and the negotiation's own Authentication/Encryption flags (a constant or another value is passed)", cs.Pos())
+		c.Check(good, rule, fnName(sat)+"#commandLevelSatisfied-args", "called with (realCmd, neg.Authentication, neg.Encryption) of the session being checked", "commandLevelSatisfied is not called with realCmd and the negotiation's own Authentication/Encryption flags (a constant or another value is passed)", cs.call.Pos())
 		if good {
-			t, _ := boolEdges(sat, cs.Value())
-			levelTrue = append(levelTrue, t...)
+			goodLevel[cs] = true
 		}
 	}
 	c.MinCount(rule, "commandLevelSatisfied calls in sessionSatisfies", nl, 1)
-	c.mustPassReturns(rule, sat, c.successTargets(sat), newCuts().AddEdges(levelTrue...), "the true edge of commandLevelSatisfied(realCmd, neg.Authentication, neg.Encryption)")
-	// (2) authorisation
-	var authzOK []Edge
-	for _, b := range sat.Blocks {
-		a, eq, ne, ok := c05eqEdges(b)
-		if !ok {
-			continue
-		}
-		var fv, other ssa.Value = a.X, a.Y
-		if isNilConst(fv) {
-			fv, other = other, fv
-		}
-		if !isNilConst(other) {
-			continue
-		}
-		base, f, isRead := fieldRead(stripConv(fv))
-		if isRead && f == fAuthz && base == ssa.Value(recv) {
-			_ = ne
-			authzOK = append(authzOK, eq) // Authorizer == nil: nothing to enforce
-		}
-	}
-	na := 0
-	for _, cs := range callsIn(sat, auz.Object()) {
-		a := cs.Common().Args
-		good := len(a) == 4 && a[0] == ssa.Value(recv) && a[1] == ssa.Value(cmdP) && a[2] == ssa.Value(peerP) && c05paramLoad(a[3], negP, nUser)
-		na++
-		c.Check(good, rule, fnName(sat)+"#authorized-args", "called with (realCmd, peerAddr, neg.User)", "authorized is not called with the dispatched command, the peer address and the session's identity", cs.Pos())
-		if good {
-			t, _ := boolEdges(sat, cs.Value())
-			authzOK = append(authzOK, t...)
-		}
-	}
-	c.MinCount(rule, "authorized calls in sessionSatisfies", na, 1)
 	for _, t := range c.successTargets(sat) {
-		p := findPath(entryPoint(sat), t.Target(), newCuts().AddEdges(authzOK...))
-		c.Check(p == nil, rule, fmt.Sprintf("%s#return%d:authorizer", fnName(sat), retOrdinal(sat, t.Ret)), "every path to this success return passes Authorizer == nil or authorized(...) == true", "sessionSatisfies can succeed with an Authorizer configured and without authorized(...) being true", t.Ret.Pos(), c.describePath(p)...)
+		p := c05path(c05entryPt(root), c05errTg(root, t), c05newCuts(c05callTrue(goodLevel)))
+		key := fmt.Sprintf("%s#return%d", fnName(sat), retOrdinal(sat, t.Ret))
+		c.Check(p == nil, rule, key, "every path to this return passes the true edge of commandLevelSatisfied(realCmd, neg.Authentication, neg.Encryption)", "a path reaches this return without passing the true edge of commandLevelSatisfied(realCmd, neg.Authentication, neg.Encryption)", t.Ret.Pos(), c.describePath(p)...)
 	}
-	// (3) authorized: true only after a true Authorizer call on one of the command's levels
-	if len(auz.Params) == 4 {
-		var yes []Edge
-		ncall := 0
-		allInstrs(auz, func(_ *ssa.BasicBlock, _ int, in ssa.Instruction) {
-			call, ok := in.(*ssa.Call)
-			if !ok || call.Call.IsInvoke() || call.Call.StaticCallee() != nil {
-				return
-			}
-			base, f, isRead := fieldRead(stripConv(call.Call.Value))
-			if !isRead || f != fAuthz || base != ssa.Value(auz.Params[0]) {
-				return
-			}
-			ncall++
-			a := call.Call.Args
-			fromPerms := len(a) == 3 && mustDepend(auz, a[0], func(v ssa.Value) bool {
-				cl, ok := v.(*ssa.Call)
-				return ok && calleeFn(cl) == perms && len(cl.Call.Args) == 2 && cl.Call.Args[1] == ssa.Value(auz.Params[1])
-			})
-			good := fromPerms && a[1] == ssa.Value(auz.Params[2]) && a[2] == ssa.Value(auz.Params[3])
-			c.Check(good, rule, fnName(auz)+"#Authorizer-args", "Authorizer is asked about a level of CommandPerms(realCmd), the peer address and the user", "Authorizer is not called with (a level registered for realCmd, peerAddr, user)", call.Pos())
-			if good {
-				t, _ := boolEdges(auz, call)
-				yes = append(yes, t...)
-			}
-		})
-		c.MinCount(rule, "Authorizer calls in authorized", ncall, 1)
-		for _, r := range c05returns(auz) {
-			if b, isC := constBool(r.Results[0]); isC && !b {
-				continue
-			}
-			p := findPath(entryPoint(auz), Target{Instr: r}, newCuts().AddEdges(yes...))
-			c.Check(p == nil, rule, fmt.Sprintf("%s#return%d", fnName(auz), retOrdinal(auz, r)), "true is returned only after a true Authorizer answer", "authorized can return true without a true Authorizer answer", r.Pos(), c.describePath(p)...)
+	// (2) authorisation: Authorizer == nil, or a true Authorizer answer for (a level of the command, peer, user)
+	authzNil := func(t c05Test) bool {
+		if !t.hasNil || !t.isNil {
+			return false
 		}
-	} else {
-		c.Undecided(rule, fnName(auz)+"#signature", "unexpected parameter list", auz.Pos())
+		return c05fieldOf(t.x.fr, t.x.v, recv, fAuthz)
+	}
+	isPermsOf := func(cmd c05V) func(c05V) bool {
+		return func(v c05V) bool {
+			cl, ok := v.v.(*ssa.Call)
+			return ok && v.fr != nil && calleeFn(cl) == perms && len(cl.Call.Args) == 2 && v.fr.res(cl.Call.Args[1]) == cmd
+		}
+	}
+	yes := map[c05Call]bool{}
+	na := 0
+	for _, dc := range c05dynCalls(root) {
+		if !c05fieldCallee(dc.fr, dc.call, recv, fAuthz) {
+			continue
+		}
+		na++
+		a := dc.call.Call.Args
+		good := len(a) == 3 && c05dependsOn(dc.fr, a[0], isPermsOf(cmdP)) && dc.fr.res(a[1]) == peerP && c05fieldOf(dc.fr, a[2], negP, nUser)
+		c.Check(good, rule, fnName(sat)+"#Authorizer-args", "Authorizer is asked about a level of CommandPerms(realCmd), the peer address and the session's identity", "the Authorizer is not asked about (a level registered for the dispatched command, the peer address, the session's identity neg.User)", dc.call.Pos())
+		if good {
+			yes[dc] = true
+		}
+	}
+	c.MinCount(rule, "Authorizer calls reachable from sessionSatisfies", na, 1)
+	for _, t := range c.successTargets(sat) {
+		p := c05path(c05entryPt(root), c05errTg(root, t), c05newCuts(authzNil, c05callTrue(yes)))
+		c.Check(p == nil, rule, fmt.Sprintf("%s#return%d:authorizer", fnName(sat), retOrdinal(sat, t.Ret)), "every path to this success return passes Authorizer == nil or a true Authorizer answer", "sessionSatisfies can succeed with an Authorizer configured and without a true Authorizer answer for this command and identity", t.Ret.Pos(), c.describePath(p)...)
+	}
+	// (3) the helper authorized, when there is one: true only after a true Authorizer call on one of the command's levels
+	if auz := c.LookupFn("server", "(*Server).authorized"); auz != nil && auz.Blocks != nil {
+		if len(auz.Params) == 4 {
+			ar := c.c05rootFrame(auz, cls, perms)
+			av := func(p *ssa.Parameter) c05V { return c05V{p, ar} }
+			ayes := map[c05Call]bool{}
+			ncall := 0
+			for _, dc := range c05dynCalls(ar) {
+				if !c05fieldCallee(dc.fr, dc.call, av(auz.Params[0]), fAuthz) {
+					continue
+				}
+				ncall++
+				a := dc.call.Call.Args
+				good := len(a) == 3 && c05dependsOn(dc.fr, a[0], isPermsOf(av(auz.Params[1]))) && dc.fr.res(a[1]) == av(auz.Params[2]) && dc.fr.res(a[2]) == av(auz.Params[3])
+				c.Check(good, rule, fnName(auz)+"#Authorizer-args", "Authorizer is asked about a level of CommandPerms(realCmd), the peer address and the user", "Authorizer is not called with (a level registered for realCmd, peerAddr, user)", dc.call.Pos())
+				if good {
+					ayes[dc] = true
+				}
+			}
+			c.MinCount(rule, "Authorizer calls in authorized", ncall, 1)
+			for _, r := range ar.retVals(0) {
+				if b, isC := constBool(r.val); isC && !b {
+					continue
+				}
+				p := c05path(c05entryPt(ar), c05Tg{fr: ar, in: r.ret, pred: r.pred, ifTrue: r.val}, c05newCuts(c05callTrue(ayes)))
+				c.Check(p == nil, rule, fmt.Sprintf("%s#return%d", fnName(auz), retOrdinal(auz, r.ret)), "true is returned only after a true Authorizer answer", "authorized can return true without a true Authorizer answer", r.ret.Pos(), c.describePath(p)...)
+			}
+		} else {
+			c.Undecided(rule, fnName(auz)+"#signature", "unexpected parameter list", auz.Pos())
+		}
 	}
 	// (4) the table of commandLevelSatisfied
 	c.c05table(rule, cls)
@@ -774,7 +1044,7 @@ func (c *Ctx) c05table(rule string, cls *ssa.Function) {
 func c05r4(c *Ctx) {
 	defer c05timer("c05r4")()
 	const rule = "C05-R4"
-	c.Doc(rule, "postAuthPolicy appends a command to the advertised set only on paths that passed !h.raw, a true commandLevelSatisfied(cmd, authenticated, encrypted) on that same command with the function's own flags, and a true Authorizer answer for the advertised identity (same callees as the dispatch check)")
+	c.Doc(rule, "postAuthPolicy (seen together with its same-package helpers) appends a command to the advertised set only on paths that passed !h.raw, a true commandLevelSatisfied(cmd, authenticated, encrypted) on that same command with the function's own flags, and a true Authorizer answer for the peer address (same callees as the dispatch check)")
 	pap := c.needFn(rule, "server", "(*Server).postAuthPolicy")
 	cls := c.needFn(rule, "server", "(*Server).commandLevelSatisfied")
 	fAuthz := c.needField(rule, "server", "Server", "Authorizer")
@@ -786,93 +1056,111 @@ func c05r4(c *Ctx) {
 		c.Undecided(rule, fnName(pap)+"#signature", "unexpected parameter list", pap.Pos())
 		return
 	}
+	root := c.c05rootFrame(pap, cls)
+	pv := func(i int) c05V { return c05V{pap.Params[i], root} }
 	n := 0
-	allInstrs(pap, func(_ *ssa.BasicBlock, _ int, in ssa.Instruction) {
-		call, ok := in.(*ssa.Call)
-		if !ok {
-			return
-		}
-		bi, ok := call.Call.Value.(*ssa.Builtin)
-		if !ok || bi.Name() != "append" || len(call.Call.Args) != 2 {
-			return
-		}
-		sl, ok := call.Type().Underlying().(*types.Slice)
-		if !ok || !types.Identical(sl.Elem(), types.Typ[types.Int]) {
-			return
-		}
-		n++
-		key := fmt.Sprintf("%s#advertise", fnName(pap))
-		if n > 1 {
-			key = fmt.Sprintf("%s/%d", key, n)
-		}
-		// the appended element(s)
-		var elems []ssa.Value
-		root := memRoot(call.Call.Args[1])
-		if al, ok := root.(*ssa.Alloc); ok {
-			for _, r := range *al.Referrers() {
-				if ia, ok := r.(*ssa.IndexAddr); ok {
-					for _, u := range *ia.Referrers() {
-						if st, ok := u.(*ssa.Store); ok && st.Addr == ia {
-							elems = append(elems, st.Val)
+	for _, fr := range root.all() {
+		allInstrs(fr.fn, func(_ *ssa.BasicBlock, _ int, in ssa.Instruction) {
+			call, ok := in.(*ssa.Call)
+			if !ok {
+				return
+			}
+			bi, ok := call.Call.Value.(*ssa.Builtin)
+			if !ok || bi.Name() != "append" || len(call.Call.Args) != 2 {
+				return
+			}
+			sl, ok := call.Type().Underlying().(*types.Slice)
+			if !ok || !types.Identical(sl.Elem(), types.Typ[types.Int]) {
+				return
+			}
+			n++
+			key := fmt.Sprintf("%s#advertise", fnName(pap))
+			if n > 1 {
+				key = fmt.Sprintf("%s/%d", key, n)
+			}
+			// the appended element(s)
+			var elems []ssa.Value
+			if al, ok := memRoot(call.Call.Args[1]).(*ssa.Alloc); ok {
+				for _, r := range *al.Referrers() {
+					if ia, ok := r.(*ssa.IndexAddr); ok {
+						for _, u := range *ia.Referrers() {
+							if st, ok := u.(*ssa.Store); ok && st.Addr == ia {
+								elems = append(elems, st.Val)
+							}
 						}
 					}
 				}
 			}
-		}
-		if len(elems) != 1 {
-			c.Undecided(rule, key, "cannot identify the advertised command value", call.Pos())
-			return
-		}
-		cmd := elems[0]
-		var levelOK, authzOK, notRaw []Edge
-		for _, cs := range callsIn(pap, cls.Object()) {
-			a := cs.Common().Args
-			if len(a) == 4 && a[1] == cmd && a[2] == ssa.Value(pap.Params[3]) && a[3] == ssa.Value(pap.Params[4]) {
-				t, _ := boolEdges(pap, cs.Value())
-				levelOK = append(levelOK, t...)
-			}
-		}
-		allInstrs(pap, func(_ *ssa.BasicBlock, _ int, in2 ssa.Instruction) {
-			dc, ok := in2.(*ssa.Call)
-			if !ok || dc.Call.IsInvoke() || dc.Call.StaticCallee() != nil {
+			if len(elems) != 1 {
+				c.Undecided(rule, key, "cannot identify the advertised command value", call.Pos())
 				return
 			}
-			_, f, isRead := fieldRead(stripConv(dc.Call.Value))
-			if isRead && f == fAuthz && len(dc.Call.Args) == 3 && dc.Call.Args[1] == ssa.Value(pap.Params[2]) {
-				t, _ := boolEdges(pap, dc)
-				authzOK = append(authzOK, t...)
+			cmd := fr.res(elems[0])
+			levelOK, authzOK := map[c05Call]bool{}, map[c05Call]bool{}
+			for _, cs := range root.calls(cls.Object()) {
+				a := cs.call.Call.Args
+				if len(a) == 4 && cs.fr.res(a[1]) == cmd && cs.fr.res(a[2]) == pv(3) && cs.fr.res(a[3]) == pv(4) {
+					levelOK[cs] = true
+				}
 			}
+			for _, dc := range c05dynCalls(root) {
+				if _, f, isRead := fieldRead(stripConv(c05resolve(dc.call.Call.Value))); isRead && f == fAuthz && len(dc.call.Call.Args) == 3 && dc.fr.res(dc.call.Call.Args[1]) == pv(2) {
+					authzOK[dc] = true
+				}
+			}
+			notRaw := func(t c05Test) bool {
+				_, f, ok := fieldRead(stripConv(t.v.v))
+				return ok && f == rawF && !t.truth
+			}
+			tg := c05Tg{fr: fr, in: call}
+			ok1, p1 := c05dominated(tg, c05newCuts(c05callTrue(levelOK)))
+			c.Check(ok1, rule, key+":level", "advertised only after commandLevelSatisfied(cmd, authenticated, encrypted) is true for that command", "a command is advertised without a true commandLevelSatisfied on it with the session's own flags", call.Pos(), c.describePath(p1)...)
+			ok2, p2 := c05dominated(tg, c05newCuts(c05callTrue(authzOK)))
+			c.Check(ok2, rule, key+":authorizer", "advertised only after a true Authorizer answer", "a command is advertised without a true Authorizer answer", call.Pos(), c.describePath(p2)...)
+			ok3, p3 := c05dominated(tg, c05newCuts(notRaw))
+			c.Check(ok3, rule, key+":not-raw", "raw handlers are skipped", "a raw handler's command can be advertised as a session command", call.Pos(), c.describePath(p3)...)
 		})
-		off, _ := fieldCondEdges(pap, rawF)
-		notRaw = off
-		ok1, p1 := c05passesOneOf(pap, levelOK, call)
-		c.Check(ok1, rule, key+":level", "advertised only after commandLevelSatisfied(cmd, authenticated, encrypted) is true for that command", "a command is advertised without a true commandLevelSatisfied on it with the session's own flags", call.Pos(), c.describePath(p1)...)
-		ok2, p2 := c05passesOneOf(pap, authzOK, call)
-		c.Check(ok2, rule, key+":authorizer", "advertised only after a true Authorizer answer", "a command is advertised without a true Authorizer answer", call.Pos(), c.describePath(p2)...)
-		ok3, p3 := c05passesOneOf(pap, notRaw, call)
-		c.Check(ok3, rule, key+":not-raw", "raw handlers are skipped", "a raw handler's command can be advertised as a session command", call.Pos(), c.describePath(p3)...)
-	})
+	}
 	c.MinCount(rule, "append sites building the advertised set", n, 1)
 }
 
-// c05localCopy: v is the address of a struct variable local to fn that is initialised by copying a
-// struct value (c := *shared) or by a composite literal, and is not stored anywhere else.
-func c05localCopy(fn *ssa.Function, v ssa.Value) (bool, string) {
-	al, ok := v.(*ssa.Alloc)
-	if !ok {
-		if _, isLoad := v.(*ssa.UnOp); isLoad {
-			return false, "a pointer loaded from shared state is passed on (no copy)"
-		}
-		if _, isPar := v.(*ssa.Parameter); isPar {
-			return false, "the caller's pointer is passed on (no copy)"
-		}
-		return false, fmt.Sprintf("not the address of a local variable (%T)", v)
+// c05ownedCopy: v (seen from fr) is, on every alternative, the address of a struct variable local to
+// the function that is running (fr's function or a helper it calls, so a fresh variable per call) —
+// initialised by copying a struct value (c := *shared) or by a composite literal.
+func c05ownedCopy(fr *c05Frame, v ssa.Value) (bool, string) {
+	os := c05nonNilOrigins(fr, v) // nil is nobody's shared object
+	if len(os) == 0 {
+		return false, "unknown value"
 	}
-	if al.Parent() != fn {
-		return false, "variable of an enclosing function"
-	}
-	if _, isStruct := al.Type().Underlying().(*types.Pointer).Elem().Underlying().(*types.Struct); !isStruct {
-		return false, "not a struct variable"
+	for _, o := range os {
+		al, ok := o.v.(*ssa.Alloc)
+		if !ok {
+			if _, isLoad := o.v.(*ssa.UnOp); isLoad {
+				return false, "a pointer loaded from shared state is passed on (no copy)"
+			}
+			if _, isPar := o.v.(*ssa.Parameter); isPar {
+				return false, "the caller's pointer is passed on (no copy)"
+			}
+			if _, isFV := o.v.(*ssa.FreeVar); isFV {
+				return false, "variable of an enclosing function"
+			}
+			return false, fmt.Sprintf("not the address of a local variable (%T)", o.v)
+		}
+		if o.fr == nil || al.Parent() != o.fr.fn {
+			return false, "variable of an enclosing function"
+		}
+		inTree := false
+		for f := o.fr; f != nil; f = f.parent {
+			if f == fr {
+				inTree = true
+			}
+		}
+		if !inTree {
+			return false, "variable of an enclosing function"
+		}
+		if _, isStruct := al.Type().Underlying().(*types.Pointer).Elem().Underlying().(*types.Struct); !isStruct {
+			return false, "not a struct variable"
+		}
 	}
 	return true, ""
 }
@@ -881,7 +1169,7 @@ func c05localCopy(fn *ssa.Function, v ssa.Value) (bool, string) {
 func c05r5(c *Ctx) {
 	defer c05timer("c05r5")()
 	const rule = "C05-R5"
-	c.Doc(rule, "the SecurityConfig handed to NewAuthenticator by the server is the address of a copy local to ServeConn (a handshake never mutates the server's shared policy object)")
+	c.Doc(rule, "the SecurityConfig handed to NewAuthenticator by the server is the address of a copy local to the function serving the connection or to a helper it calls (a handshake never mutates the server's shared policy object)")
 	na := c.needFn(rule, "security", "NewAuthenticator")
 	sc := c.needFn(rule, "server", "(*Server).ServeConn")
 	if na == nil || sc == nil {
@@ -891,11 +1179,40 @@ func c05r5(c *Ctx) {
 	for _, fn := range c.FnsOfPkg("server") {
 		for _, cs := range callsIn(fn, na.Object()) {
 			n++
-			ok, why := c05localCopy(fn, cs.Common().Args[0])
+			ok, why := c.c05ownedAtCall(fn, cs.Common().Args[0], 0)
 			c.Check(ok, rule, fnName(topFn(fn))+"#NewAuthenticator-config", "address of a per-connection copy", "server passes a shared SecurityConfig to NewAuthenticator: "+why, cs.Pos())
 		}
 	}
 	c.MinCount(rule, "NewAuthenticator call sites in package server", n, 1)
+}
+
+// c05ownedAtCall: the value v used in fn is an owned copy (c05ownedCopy); when it is a parameter of an
+// unexported function, every caller must pass an owned copy (the call was extracted into a helper).
+func (c *Ctx) c05ownedAtCall(fn *ssa.Function, v ssa.Value, depth int) (bool, string) {
+	fr := c.c05rootFrame(fn)
+	ok, why := c05ownedCopy(fr, v)
+	if ok {
+		return true, ""
+	}
+	par, isPar := fr.res(v).v.(*ssa.Parameter)
+	if !isPar || par.Parent() != fn || depth >= c05MaxDepth || fn.Object() == nil || token.IsExported(fn.Name()) || len(c.c05funcValueUses(fn)) > 0 {
+		return false, why
+	}
+	idx := c05paramIndex(fn, par)
+	sites := c.callSites(fn.Object())
+	if len(sites) == 0 || idx < 0 {
+		return false, why
+	}
+	for _, cs := range sites {
+		args := cs.Call.Common().Args
+		if idx >= len(args) {
+			return false, "call shape"
+		}
+		if ok, w := c.c05ownedAtCall(cs.Fn, args[idx], depth+1); !ok {
+			return false, w + " (in " + fnName(cs.Fn) + ", which calls " + fnName(fn) + ")"
+		}
+	}
+	return true, ""
 }
 
 // C05-R6: imported obligations (not decided here).
